@@ -289,7 +289,7 @@ func c07Source(q c07Req) string {
 	return "sni"
 }
 
-var c07Ops = []string{"writeT1", "writeT2", "writeUnparsable", "writeFailing", "remove"}
+var c07Ops = []string{"writeT1", "writeT2", "writeUnparsable", "writeFailing", "remove", "writeBig"}
 
 // c07Templates enumerates histories of template-file operations.
 func c07Templates(r *ev.Result, base string, depth int) {
@@ -298,6 +298,9 @@ func c07Templates(r *ev.Result, base string, depth int) {
 		"writeT2":         "two {{.ID}} {{.URL}}\n",
 		"writeUnparsable": "bad {{.URL",
 		"writeFailing":    "failing {{.URL}} {{.NoSuchField}}\n",
+		/* A template carrying a library of shell functions in front of the
+		callback lines (~100 kB). */
+		"writeBig": strings.Repeat("helper() { : some function the operator wants on every target; }\n", 1600) + "big {{.ID}} {{.URL}}\n",
 	}
 	var hists [][]string
 	var rec func(cur []string)
@@ -362,6 +365,10 @@ func c07Templates(r *ev.Result, base string, depth int) {
 				case "writeT2":
 					if 200 != res.Status || !strings.HasPrefix(body, "two ") || !strings.HasSuffix(body, " cb.example\n") {
 						bad = "the current template (T2) was not rendered"
+					}
+				case "writeBig":
+					if 200 != res.Status || !strings.HasPrefix(body, "helper() {") || !strings.HasSuffix(body, " cb.example\n") || 1600 != strings.Count(body, "helper() {") || !strings.Contains(body, "\nbig ") {
+						bad = fmt.Sprintf("the current template (100 kB of functions, then the callback lines) was not rendered in full: %d bytes, ends %q", len(body), tail(body, 40))
 					}
 				default:
 					if res.Status < 400 {
